@@ -502,7 +502,8 @@ def link_edit(draw, spec):
     return ed
 
 
-LIST_METHODS = ["append", "insert", "extend", "iadd", "imul", "pop", "remove", "delitem", "setitem", "clear"]
+LIST_METHODS = ["append", "insert", "extend", "iadd", "imul", "pop", "remove", "delitem", "setitem", "clear",
+                "delslice"]
 
 
 @st.composite
@@ -525,7 +526,9 @@ def list_edit(draw, spec, mutators=True, noops=True):
         ed = dict(op="list", obj=n, attr=a, targets=tg)
     else:
         m = draw(st.sampled_from(LIST_METHODS))
-        if m in ("pop", "remove", "delitem", "setitem") and not cur:
+        if m in ("pop", "remove", "delitem", "setitem", "delslice") and not cur:
+            m = "append"
+        if m == "delslice" and len(cur) - 1 < min_len:
             m = "append"
         if m in ("pop", "remove", "delitem") and len(cur) <= min_len:
             m = "append"
@@ -538,9 +541,15 @@ def list_edit(draw, spec, mutators=True, noops=True):
         elif m in ("extend", "iadd"):
             args = [draw(st.lists(st.sampled_from(pool), min_size=0 if noops else 1, max_size=2))]
         elif m == "imul":
-            args = [draw(st.sampled_from([1, 2] if noops else [2]))]
+            args = [draw(st.sampled_from([1, 2, 3, 0] if noops and min_len == 0 else [1, 2, 3] if noops else [2, 3]))]
             if len(cur) > 3:
                 args = [1] if noops else [2]
+        elif m == "delslice":
+            a_ = draw(st.integers(0, len(cur) - 1))
+            b_ = draw(st.integers(a_, len(cur)))
+            if min_len and b_ - a_ >= len(cur):
+                b_ = a_
+            args = [a_, b_]
         elif m == "pop":
             args = [] if draw(st.booleans()) else [draw(st.integers(0, len(cur) - 1))]
         elif m == "remove":
